@@ -336,6 +336,9 @@ class Ctx:
         self.replaying = False
         self.part = "main"
         self.warm = False  # warm-up worker: tiny counts, result discarded
+        # the quick totals written in the modules were sized on a loaded
+        # machine; META["quick_scale"] (default 3) multiplies them
+        self.quick_scale = 1.0
 
     @property
     def boundscheck(self) -> bool:
@@ -348,7 +351,7 @@ class Ctx:
 
     def n(self, quick: int, thorough: int) -> int:
         """Number of cases for *this shard* given totals for both tiers."""
-        total = thorough if self.thorough else quick
+        total = thorough if self.thorough else int(quick * self.quick_scale)
         if self.warm:
             return min(total, 4)
         return max(1, -(-total // self.nshards))
